@@ -9,9 +9,12 @@ from vlib import build
 t = time.time()
 print("overlay:", build.build_overlay("/repo"))
 kdir = os.path.join(os.path.dirname(os.path.abspath(__file__)), "kern")
-if os.path.isdir(kdir):
-    for f in sorted(os.listdir(kdir)):
-        if f.endswith(".cpp"):
-            for fl in ("rel",):
-                print("kern:", build.build_kernlib(f[:-4], "/repo", fl))
+for f in sorted(os.listdir(kdir)):
+    if f.endswith(".cpp"):
+        print("kern:", build.build_kernlib(f[:-4], "/repo", "rel"))
+# instrumented flavours used by C08 (green-thread scheduler) and C14 (AddressSanitizer seam)
+print("kern mc:", build.build_kernlib("ompseam", "/repo", "mc"))
+print("kern asan:", build.build_kernlib("hbseam", "/repo", "asan"))
+for m in ("mdtraj._rmsd", "mdtraj.geometry.drid"):
+    print("mc module:", build.build_mc_module(m, "/repo"))
 print("setup done in %.1fs" % (time.time() - t))
